@@ -60,7 +60,9 @@ def export_cases(ctx, mc_out, name, limit=None, stride=1):
         for line in f:
             if line.startswith(pre):
                 k += 1
-                if (k - 1) % stride:
+                # one case in `stride`, chosen by a fixed pseudo-random function of the case number (a regular stride can
+                # resonate with the enumeration order: TLC varies one dimension of the case fastest)
+                if stride > 1 and ((k * 2654435761) % 4294967296) * stride >= 4294967296:
                     continue
                 case = json.loads(json.loads(line.rstrip("\n")[len(pre):-2]))
                 case["run"] = n
